@@ -405,7 +405,14 @@ impl Linter for LintGroup {
             };
 
             let chunk_chars = document.get_span_content(&chunk_span);
-            let config_hash = self.hasher_builder.hash_one(&self.config);
+            // The pattern lints depend on how the chunk was tokenized, not only on its
+            // characters (another parser lexes the same text differently), so the token
+            // kinds and their chunk-relative spans are hashed into the key as well.
+            let token_sig: Vec<_> = chunk
+                .iter()
+                .map(|t| (&t.kind, t.span.start - chunk_span.start, t.span.len()))
+                .collect();
+            let config_hash = self.hasher_builder.hash_one((&self.config, token_sig));
             let key = (chunk_chars.into(), config_hash);
 
             let mut chunk_results = if let Some(hit) = self.chunk_pattern_cache.get(&key) {
